@@ -302,7 +302,7 @@ func runPanic(r *rng, n int, enc *json.Encoder) {
 			tags = append(tags, t)
 		}
 		sortStrings(tags)
-		_ = enc.Encode(line{Coq: fmt.Sprintf("CasePanic [%s] (%s) %s", strings.Join(g.steps, "; "), c.coq(), b),
+		_ = enc.Encode(line{Coq: fmt.Sprintf("XOld (CasePanic [%s] (%s) %s)", strings.Join(g.steps, "; "), c.coq(), b),
 			NT: panicked, Key: strings.Join(g.keys, ";"), Sample: map[string]any{"trace": g.sample}, Tags: tags})
 	}
 }
